@@ -60,12 +60,32 @@ inductive MOp where
   /-- System.Contract.Call(callee, method) executed inside a method of `caller` -/
   | call (caller callee : Nat) (method : Bytes)
 
+def descWfB (d : Dec) : Desc → Bool
+  | .wildcard => true
+  | .hash h => h.length == 20
+  | .group k => k.length == 33 && d.decodeKey k == some k
+
+/-- what Go's types and encoding/json establish about a manifest value (`Man.WF`, Proofs/FlagsManifest.lean), decidably -/
+def wfB (d : Dec) (m : Man) : Bool :=
+  let paramOk := fun (p : Param) => d.utf8 p.name && d.validTypes.contains p.typ
+  d.utf8 m.name &&
+  (m.groups.getD []).all (fun g => d.decodeKey g.key == some g.key && g.sig.length == 64) &&
+  m.standards.all d.utf8 &&
+  m.methods.all (fun x => d.utf8 x.name && d.validTypes.contains x.ret && x.params.all paramOk) &&
+  m.events.all (fun e => d.utf8 e.name && e.params.all paramOk) &&
+  m.perms.all (fun p => descWfB d p.contract && (match p.methods with | none => true | some ms => ms.all d.utf8)) &&
+  (m.trusts.value.getD []).all (descWfB d)
+
+/-- what deploy / update accept: a manifest value as encoding/json and the Go types deliver it (`wfB`) that passes the
+    validity checks -/
+def accept (P : Params) (m : Man) : Bool := wfB P.dec m && P.valid m
+
 def exec (P : Params) (s : MStore) (c : MCache) : MOp → Option (MStore × MCache)
   | .deploy k m =>
     match c k with
     | some _ => none                                                  -- "contract already exists"
     | none =>
-      if !P.valid m then none
+      if !accept P m then none
       else some ({ contracts := upd s.contracts k (some ⟨s.nextId, 0, m.toItem P.compact⟩), nextId := s.nextId + 1 },
                  upd c k (some ⟨s.nextId, 0, m⟩))
   | .update k mo =>
@@ -77,7 +97,7 @@ def exec (P : Params) (s : MStore) (c : MCache) : MOp → Option (MStore × MCac
         some ({ s with contracts := upd s.contracts k (some ⟨r.id, r.upd + 1, r.man.toItem P.compact⟩) },
               upd c k (some ⟨r.id, r.upd + 1, r.man⟩))
       | some m =>
-        if !P.valid m || m.name != r.man.name then none               -- "contract name can't be changed"
+        if !accept P m || m.name != r.man.name then none               -- "contract name can't be changed"
         else some ({ s with contracts := upd s.contracts k (some ⟨r.id, r.upd + 1, m.toItem P.compact⟩) },
                    upd c k (some ⟨r.id, r.upd + 1, m⟩))
   | .destroy k =>
@@ -111,22 +131,6 @@ def getContract (P : Params) (c : MCache) (k : Nat) : Option (Int × Nat × Item
 def emptyStore : MStore := { contracts := fun _ => none, nextId := 1 }
 
 -- an executable instance (the driver's) ----------------------------------------------------------------------------
-
-def descWfB (d : Dec) : Desc → Bool
-  | .wildcard => true
-  | .hash h => h.length == 20
-  | .group k => k.length == 33 && d.decodeKey k == some k
-
-/-- what Go's types and encoding/json establish about a manifest value (`Man.WF`, Proofs/FlagsManifest.lean), decidably -/
-def wfB (d : Dec) (m : Man) : Bool :=
-  let paramOk := fun (p : Param) => d.utf8 p.name && d.validTypes.contains p.typ
-  d.utf8 m.name &&
-  (m.groups.getD []).all (fun g => d.decodeKey g.key == some g.key && g.sig.length == 64) &&
-  m.standards.all d.utf8 &&
-  m.methods.all (fun x => d.utf8 x.name && d.validTypes.contains x.ret && x.params.all paramOk) &&
-  m.events.all (fun e => d.utf8 e.name && e.params.all paramOk) &&
-  m.perms.all (fun p => descWfB d p.contract && (match p.methods with | none => true | some ms => ms.all d.utf8)) &&
-  (m.trusts.value.getD []).all (descWfB d)
 
 /-- smartcontract.validParamTypes -/
 def paramTypes : List Nat := [0x00, 0x10, 0x11, 0x12, 0x13, 0x14, 0x15, 0x16, 0x17, 0x20, 0x22, 0x30, 0x40, 0xff]
